@@ -376,6 +376,11 @@ func (h *histogram) RecordValue(value float64) {
 	idx := sort.Search(len(h.buckets), func(i int) bool {
 		return h.buckets[i].valueUpperBound >= value
 	})
+	if idx == len(h.buckets) {
+		// +Inf and NaN are not <= any bucket upper bound, count them
+		// in the last bucket rather than indexing out of range.
+		idx = len(h.buckets) - 1
+	}
 	h.samples[idx].counter.Inc(1)
 }
 
